@@ -2,7 +2,7 @@
    Only statements; proofs are [exact <lemma>] from Queue/CleanProofs.v.
    Models (Queue/Clean.v): qmail-clean.c request handling, spawn.c getcmd()/docmd(),
    qmail-send.c del_dochan(). *)
-From NQ Require Import Queue.Clean Queue.CleanProofs.
+From NQ Require Import Queue.Clean Queue.CleanProofs Local.LspawnReport Local.LspawnReportProofs.
 Local Open Scope N_scope.
 
 (* qmail-clean answers every request with exactly one status byte ... *)
@@ -81,6 +81,25 @@ Theorem send_finishes_only_on_K_or_D : forall conc used dying r,
                 (k = 75 \/ k = 68 \/ (k = 90 /\ dying d = true)).
 Proof. exact finishes_only_KD_l. Qed.
 Print Assumptions send_finishes_only_on_K_or_D.
+
+(* qmail-lspawn: whatever bytes the delivery child (qmail-local and the programs a user's .qmail runs) wrote, the report for
+   its command contains no NUL - spawn.c ends each report with one NUL, so the child's output cannot frame a second report
+   or another command's delivery number - and begins with the verdict computed from the exit status alone *)
+Theorem lspawn_report_is_one_report : forall crashed code out, ~ In 0 (lspawn_report crashed code out).
+Proof. exact lspawn_report_no_nul. Qed.
+Print Assumptions lspawn_report_is_one_report.
+Theorem lspawn_report_verdict_from_status_only : forall crashed code out,
+  hd 0 (lspawn_report crashed code out) = lspawn_verdict crashed code /\ In (lspawn_verdict crashed code) [75; 90; 68].
+Proof. intros. split; [apply lspawn_report_head | rewrite <- (lspawn_report_head crashed code out); apply lspawn_report_head_kzd]. Qed.
+Print Assumptions lspawn_report_verdict_from_status_only.
+Theorem lspawn_report_keeps_nul_free_output : forall code out, lspawn_fixed_text code = None -> ~ In 0 out ->
+  lspawn_report false code out = lspawn_verdict false code :: out.
+Proof. exact lspawn_report_text. Qed.
+Print Assumptions lspawn_report_keeps_nul_free_output.
+Example lspawn_report_nonvacuous :
+  lspawn_report false 0 [100;111;110;101;10;0;7;75;102;111;114;103;101;100;10] = [75;100;111;110;101;10] /\
+  lspawn_report false 100 [110;111] = [68;110;111] /\ (hd 0 (lspawn_report false 117 [75])) = 90.
+Proof. repeat split; vm_compute; reflexivity. Qed.
 
 (* before the "fix:" commit qmail-clean answered "x" and executed anyway; the repaired model
    rejects these, the witnesses are kept as regression examples *)
